@@ -66,10 +66,11 @@ def make_case(run, fmt, idx, big=False):
         info["dump"] = dump
         return line, info
     fmtgen.write_image(img, info["pgsz"], entries)
+    dense = info.get("dense")
     reqs = ["G", "Z0"] + fmtgen.page_requests(run.rng, info["pgsz"], info["maxpfn"], info["pfns"],
-                                               limit=40 if info["pgsz"] <= 8192 else 16)
+                                               limit=90 if dense else 40 if info["pgsz"] <= 8192 else 16)
     z1 = fmtgen.page_requests(run.rng, info["pgsz"], info["maxpfn"], info["pfns"],
-                              limit=24 if info["pgsz"] <= 8192 else 10)
+                              limit=40 if dense else 24 if info["pgsz"] <= 8192 else 10)
     reqs += ["Z1"] + z1
     nf = info.get("nfiles", 1)
     dumps = dump if nf == 1 else " ".join("%s.%d" % (dump, i) for i in range(nf))
